@@ -44,6 +44,20 @@ pub struct AClass {
 	pub vis: Vec<AAnn>, pub inv: Vec<AAnn>,
 	pub perm: Option<Vec<String>>, pub records: Vec<String>,
 	pub source_file: Option<String>,
+	/// attributes unknown to the JVMS: (name, seed, length) — the content is `noise(seed, length)`
+	pub attrs: Vec<(String, u64, usize)>,
+}
+
+/// xorshift64*: bytes DEFLATE cannot compress; a deterministic function of (seed, len)
+pub fn noise(seed: u64, len: usize) -> Vec<u8> {
+	let mut x = seed.wrapping_mul(0x9E37_79B9_7F4A_7C15) | 1;
+	let mut v = Vec::with_capacity(len + 8);
+	while v.len() < len {
+		x ^= x >> 12; x ^= x << 25; x ^= x >> 27;
+		v.extend_from_slice(&x.wrapping_mul(0x2545_F491_4F6C_DD1D).to_be_bytes());
+	}
+	v.truncate(len);
+	v
 }
 
 fn js(s: &str) -> JavaString { JavaString::from(s.to_owned()) }
@@ -108,6 +122,7 @@ pub fn to_duke(c: &AClass) -> ClassFile {
 	k.permitted_subclasses = c.perm.as_ref().map(|l| l.iter().map(|s| cn(s)).collect());
 	k.record_components = c.records.iter().map(|n| RecordComponent::new(RecordName::try_from(js(n)).expect("record name"), fd("I"))).collect();
 	k.source_file = c.source_file.as_deref().map(js);
+	k.attributes = c.attrs.iter().map(|(n, seed, len)| duke::tree::attribute::Attribute { name: js(n), bytes: noise(*seed, *len) }).collect();
 	k
 }
 
@@ -128,7 +143,7 @@ pub struct PMember { pub name: Vec<u32>, pub desc: Vec<u32>, pub access: u64, pu
 pub struct PClass {
 	pub version: u64, pub access: u64, pub name: Vec<u32>, pub sup: Option<Vec<u32>>, pub itfs: Vec<Vec<u32>>,
 	pub fields: Vec<PMember>, pub methods: Vec<PMember>, pub depr: bool, pub synth: bool,
-	pub inner: Option<Vec<(Vec<u32>, u64)>>, pub vis: Vec<PAnn>, pub inv: Vec<PAnn>, pub perm: u64, pub rec: u64, pub rest: u64,
+	pub inner: Option<Vec<(Vec<u32>, u64)>>, pub vis: Vec<PAnn>, pub inv: Vec<PAnn>, pub perm: Option<Vec<Vec<u32>>>, pub rec: u64, pub rest: u64,
 }
 impl PMember { pub fn key(&self) -> (Vec<u32>, Vec<u32>) { (self.name.clone(), self.desc.clone()) } }
 
@@ -180,11 +195,19 @@ pub fn proj_method(f: &Method, it: &mut Interner) -> PMember {
 		inv: f.runtime_invisible_annotations.iter().map(|a| proj_ann(a, it)).collect(), rest: it.text(format!("{rest:?}")) }
 }
 
+/// major * 65536 + minor.  Version's numbers are crate-private: they are read off the header of a
+/// class file duke writes for an otherwise empty class of that version (bytes 4..8), not off `{:?}`.
 fn version_number(v: &Version) -> u64 {
-	// Version's numbers are crate-private; its Debug output is `Version { major: 52, minor: 0 }`
-	let s = format!("{v:?}");
-	let nums: Vec<u64> = s.split(|c: char| !c.is_ascii_digit()).filter(|x| !x.is_empty()).map(|x| x.parse().unwrap_or(0)).collect();
-	nums.first().copied().unwrap_or(0) * 65536 + nums.get(1).copied().unwrap_or(0)
+	thread_local! { static CACHE: std::cell::RefCell<Vec<(Version, u64)>> = const { std::cell::RefCell::new(Vec::new()) }; }
+	if let Some(n) = CACHE.with(|c| c.borrow().iter().find(|(w, _)| w == v).map(|x| x.1)) { return n; }
+	let k = ClassFile::new(*v, ClassAccess::from(0x0021), ocn("V"), Some(ocn("java/lang/Object")), vec![]);
+	let mut b = Vec::new();
+	let n = match duke::write_class(&mut b, &k) {
+		Ok(()) if b.len() >= 8 => ((b[6] as u64) << 8 | b[7] as u64) * 65536 + ((b[4] as u64) << 8 | b[5] as u64),
+		_ => u64::MAX, // never equal to a number of the other side: shows up as a disagreement
+	};
+	CACHE.with(|c| c.borrow_mut().push((*v, n)));
+	n
 }
 
 pub fn project(c: &ClassFile, it: &mut Interner) -> PClass {
@@ -203,7 +226,7 @@ pub fn project(c: &ClassFile, it: &mut Interner) -> PClass {
 		}).collect()),
 		vis: c.runtime_visible_annotations.iter().map(|a| proj_ann(a, it)).collect(),
 		inv: c.runtime_invisible_annotations.iter().map(|a| proj_ann(a, it)).collect(),
-		perm: match &c.permitted_subclasses { None => 0, Some(p) => it.text(format!("{p:?}")) },
+		perm: c.permitted_subclasses.as_ref().map(|p| p.iter().map(|n| cps(n.as_inner())).collect()),
 		rec: if c.record_components.is_empty() { 0 } else { it.text(format!("{:?}", c.record_components)) },
 		rest: it.text(format!("{rest:?}")),
 	}
@@ -224,5 +247,5 @@ pub fn g_class(c: &PClass) -> String {
 	format!("(mkClass {} {} {} {} {} {} {} {} {} {} {} {} {} {} {})", c.version, c.access, gstr(&c.name), gopt(c.sup.as_ref().map(|s| gstr(s))),
 		glist(c.itfs.iter().map(|i| gstr(i))), glist(c.fields.iter().map(g_member)), glist(c.methods.iter().map(g_member)), gbool(c.depr), gbool(c.synth),
 		gopt(c.inner.as_ref().map(|l| glist(l.iter().map(|(n, r)| gpair(gstr(n), r.to_string()))))),
-		glist(c.vis.iter().map(g_ann)), glist(c.inv.iter().map(g_ann)), c.perm, c.rec, c.rest)
+		glist(c.vis.iter().map(g_ann)), glist(c.inv.iter().map(g_ann)), gopt(c.perm.as_ref().map(|l| glist(l.iter().map(|n| gstr(n))))), c.rec, c.rest)
 }
